@@ -259,10 +259,12 @@ def gen_scalar(rng, dialect, width, for_set=False):
 def gen_quantity(rng, dialect, width, Quantity):
     u, uc, urep = gen_units(rng, dialect)
     r = rng.random()
-    if r < 0.75 or dialect in ("ODL", "PDS3") and r < 0.9:
+    odl = dialect in ("ODL", "PDS3")
+    if r < 0.75 or (odl and r < 0.88):
         n = gen_number(rng)
         return Leaf(Quantity(n.value, u), f"quantity:{n.cls}:{uc}", urep)
-    if r < 0.9:
+    if r < 0.9 or (odl and r < 0.96):
+        # (ODL/PDS3: units may only follow numbers - the encoder must refuse)
         s = gen_string(rng, dialect, width)
         rep = urep and s.rep and dialect in ("PVL", "ISIS")
         return Leaf(Quantity(s.value, u), f"quantity:str:{uc}", rep)
